@@ -217,6 +217,27 @@ def afmLine (t : List String) : Option String :=
         | some i => pure (line ++ s!" | {i.variables.lastRefUpdateTs} {i.variables.lastMajorSwapTs} {i.variables.volRef} {i.variables.groupIndexRef} {i.variables.volAcc}")
         | none => none
 
+/-- `remis liq lastTs now idx newEmissions (init emissions growth)x3`: settle all rewards, then set one rate (C11) -/
+def remisLine (t : List String) : Option String :=
+  if t.length ≠ 5 + 9 then none else do
+  let n ← natArgs (t.take 5)
+  let g := fun i => n.getD i 0
+  let rw (k : Nat) : Option RewardInfo := do
+    let i ← b01 (t.getD (5 + 3 * k) "")
+    let e ← (t.getD (6 + 3 * k) "").toNat?
+    let gr ← (t.getD (7 + 3 * k) "").toNat?
+    pure { initialized := i, emissions := e, growth := gr }
+  let r0 ← rw 0; let r1 ← rw 1; let r2 ← rw 2
+  let p : PoolD := { ts := 64, feeRate := 0, protoRate := 0, liq := g 0, price := TWO64, tick := 0, rewardTs := g 1, rewards := [r0, r1, r2] }
+  match nextRewardInfos p (g 2) with
+  | .error e => pure ("err " ++ e.name)
+  | .ok next =>
+    if g 3 ≥ 3 then pure "err InvalidRewardIndex"
+    else
+      let next := next.set (g 3) { (next.getD (g 3) {}) with emissions := g 4 }
+      let f (k : Nat) := let r := next.getD k {}; s!"{r.emissions} {r.growth}"
+      pure s!"ok {g 2} {f 0} {f 1} {f 2}"
+
 /-- `sdkaf`: the adaptive-fee variable rules, function by function (C20 / C14):
     sdkaf cur now fp dp rf cf mx gs mj lr lm vr gr va g2 pre post -/
 def sdkafLine (t : List String) : Option String :=
@@ -491,6 +512,9 @@ partial def loop (h : IO.FS.Stream) (out : IO.FS.Stream) (hist : Option HistStat
     loop h out hist bm dyn snap
   | "xadm" :: rest =>
     out.putStrLn ((xadmLine rest).getD "bad-op")
+    loop h out hist bm dyn snap
+  | "remis" :: rest =>
+    out.putStrLn ((remisLine rest).getD "bad-op")
     loop h out hist bm dyn snap
   | "sdkaf" :: rest =>
     out.putStrLn ((sdkafLine rest).getD "bad-op")
